@@ -67,6 +67,8 @@ def main():
             repo = os.path.join(scratch, "repo")
             shutil.copytree("/repo", repo, ignore=shutil.ignore_patterns(".git", "__pycache__", "*.egg-info"))
             sh(["git", "init", "-q"], cwd=repo)
+            # demos of later waves start with `import thirdparty_shims` (= bcv/compat.py, third-party API drift only)
+            shutil.copy(os.path.join(HERE, "bcv", "compat.py"), os.path.join(repo, "thirdparty_shims.py"))
             # demo on the clean copy
             e = dict(os.environ, PYTHONPATH=os.pathsep.join([repo, HERE]), PYTHONDONTWRITEBYTECODE="1")
             d0 = sh([PY, "-B", demo], cwd=repo, env=e) if os.path.exists(demo) else None
